@@ -81,6 +81,7 @@ class Exec:
         self.w = world if world is not None else World()
         self.tasks = {}  # task label -> live generator
         self.held = {}  # name -> container kept by the simulated client
+        self.shared = {}  # key -> a list object the client passes to several calls
 
     # -- helpers ----------------------------------------------------------
     def g(self, label):
@@ -160,6 +161,9 @@ class Exec:
             kw["links"] = self.as_kind(self.gs(op["links"]), op.get("as"))
         if op.get("universes") is not None:
             kw["universes"] = self.as_kind(self.gs(op["universes"]), op.get("as"))
+            if op.get("share") is not None:
+                # the very same list object as an earlier call was given
+                kw["universes"] = self.shared.setdefault(op["share"], self.gs(op["universes"]))
         attrs = {"sim_tag": op.get("tag", 0)}
         attrs.update(op.get("attrs") or {})
         v = cls(attributes=attrs, **kw)
